@@ -6,7 +6,7 @@ from ..vm import Prog, expect_ok, expect_exc, lit_repr
 
 ID = "C19"
 LEVEL = "exploration"
-BUDGET = {"quick": 1200, "thorough": 80000}
+BUDGET = {"quick": 1200, "thorough": 240000}
 RULE = ("case = (way of obtaining an object) x (element type Int|Float|String|Ref|Probe|Tuple) x (list of freeing / reallocating "
         "operations) in a generated surrounding state (container kind, size, position). Ways: new, new_raw, new_root, stack "
         "($), copy, static (type objects, _), element of Array/List via get and via iteration, key/value of Table/Tree via get / "
